@@ -870,6 +870,15 @@ class MailExecutor(UnitsExecutor):
             label = e.attr if isinstance(e, ast.Attribute) else (e.id if isinstance(e, ast.Name) else "loop")
             wild = self.contract.loops["*"]
             return LoopSpec(inv=wild.inv, label=label)
+        if spec is not None and spec.inv is not None and not getattr(spec.inv, "_records_checked", False):
+            import dataclasses
+            inner = spec.inv
+
+            def inv(lc, inner=inner):
+                self.check_records(lc)
+                return inner(lc)
+            inv._records_checked = True
+            spec = dataclasses.replace(spec, inv=inv)
         return spec
 
     def symbolic_for(self, s, st, it):
@@ -933,7 +942,48 @@ class MailExecutor(UnitsExecutor):
         d.update(self._smap_fresh(shape))
         st.heap[ref] = HeapObj("amap", d, None, o.fresh)
 
+    # ------------------------------------------ dicts used as RECORDS (round 6) --
+    # A dict with constant str keys and str values (`bodies = {"text/plain": "", "text/html": ""}`) that a loop updates through a
+    # symbolic key which the path condition places among the keys (`if key not in d: continue`): the store updates every entry
+    # by `If(key == k, v, old)`.  Across a symbolic loop WITH an invariant such a dict keeps its keys and gets arbitrary str
+    # values; "the key set is unchanged" is then part of the invariant (checked in front of the pack's own invariant at every
+    # preserve point: a body that adds / removes a key or stores something else leaves the verified subset).
+    @staticmethod
+    def _is_record(o):
+        return o is not None and o.kind == "dict" and isinstance(o.data, dict) and o.data and \
+            all(isinstance(k, str) for k in o.data) and all(type(x) is VStr for x in o.data.values())
+
+    def _records_before_havoc(self, st, body, spec):
+        records = {}
+        if spec is not None and spec.inv is not None and not self._probing:
+            for ref in self.mutated_refs(body, st):
+                o = st.heap.get(ref)
+                if self._is_record(o):
+                    records[ref] = (o, list(o.data))
+        return records
+
+    def _records_after_havoc(self, st, records):
+        for ref, (o, keys) in records.items():
+            st.heap[ref] = HeapObj("dict", {k: VStr(z3.String(fresh_name(f"rec{ref}.{k}"))) for k in keys}, o.cls, False)
+            st.ghost[("record", ref)] = tuple(keys)
+
+    def check_records(self, lc):
+        for key, keys in list(lc.st.ghost.items()):
+            if isinstance(key, tuple) and len(key) == 2 and key[0] == "record":
+                o = lc.st.heap.get(key[1])
+                if not self._is_record(o) or tuple(o.data) != tuple(keys):
+                    raise Unsupported("a dict kept as a record across the loop does not keep its keys / str values")
+                if lc.extra.get("phase") == "exit":
+                    del lc.st.ghost[key]
+
     def store_index(self, st, base, idx, v, node):
+        if isinstance(base, VRef) and type(idx) is VStr and idx.const() is None and type(v) is VStr and self._is_record(st.obj(base.ref)):
+            keys = list(st.obj(base.ref).data)
+            if not self.feasible(st.pc, z3.And([idx.t != z3.StringVal(k) for k in keys])):
+                w = st.wobj(base.ref)
+                w.data = {k: VStr(z3.If(idx.t == z3.StringVal(k), v.t, old.t)) for k, old in w.data.items()}
+                self.note_store(st, base.ref, node)
+                return [st]
         o = self._smap_obj(st, base)
         if o is not None and isinstance(idx, (VStr, VOpt)) and not (isinstance(idx, VStr) and idx.const() is not None and o.kind == "dict"):
             key = self.unwrap(st, idx)
@@ -1018,7 +1068,9 @@ class MailExecutor(UnitsExecutor):
                     st.heap[ref] = HeapObj("alist", _empty_seq(kind), None, o.fresh)
             if "dispatch" in st.ghost:
                 st.ghost["dispatch"] = ()
+        records = self._records_before_havoc(st, body, spec)
         super().havoc_loop_state(st, body, spec, extra_names)
+        self._records_after_havoc(st, records)
 
     def y_havoc(self, st):
         super().y_havoc(st)
